@@ -6,11 +6,13 @@ From Wpull Require Import Model.HttpReq.
 Import ListNotations.
 Open Scope N_scope.
 
-(* printable ASCII without the space: 0x21 .. 0x7E *)
-Definition clean (s : str) : Prop := Forall (fun ch => 32 < ch /\ ch < 127) s.
+(* no control character, no space, one latin-1 byte each: 0x21 .. 0xFF.  (This is all the
+   request serialiser needs; what the URL normaliser produces is narrower - percent-encoded
+   paths and IDNA host names are 0x21..0x7E, and a DEL 0x7F can survive in a host name.) *)
+Definition clean (s : str) : Prop := Forall (fun ch => 32 < ch /\ ch < 256) s.
 
-(* the fact C10 proves about every normalised URL, taken here as a hypothesis
-   on the components (and checked by the harness on every generated URL) *)
+(* what is assumed of every parsed URL (C10 proves the narrower 0x21..0x7E statement for
+   normalised URLs; the harness checks this on every generated URL) *)
 Definition url_clean (u : urlc) : Prop :=
   clean (u_scheme u) /\ clean (u_hostname u) /\ clean (u_path u) /\ clean (u_query u)
   /\ clean (u_user_enc u) /\ clean (u_pass_enc u).
@@ -65,9 +67,21 @@ Definition own_credentials (login : option (str * str)) (u : urlc) (v : str) : P
    space, no colon *)
 Definition token (s : str) : Prop := s <> [] /\ Forall (fun ch => 32 < ch /\ ch < 127 /\ ch <> 58) s.
 
-(* names are tokens, values carry no CR / LF *)
+(* field names are compared without regard to case by whoever reads the request *)
+Definition lower (ch : N) : N := if (65 <=? ch) && (ch <=? 90) then ch + 32 else ch.
+Definition ci_eq (a b : str) : bool := str_eqb (map lower a) (map lower b).
+
+(* the names wpull derives per URL / per fetch *)
+Definition derived_names : list str := [s_Host; s_Cookie; s_Authorization; s_Referer].
+
+(* a field name as NameValueRecord keeps it: a token, and if it is one of the derived names in some
+   spelling then it is THE spelling wpull uses (normalize_name maps every spelling to that one) *)
+Definition fname (s : str) : Prop :=
+  token s /\ forall k, In k derived_names -> ci_eq s k = true -> s = k.
+
+(* names are field names in wpull's spelling, values carry no CR / LF *)
 Definition fields_tok (f : nvr) : Prop :=
-  forall n v, In (n, v) (nv_get_all f) -> token n /\ no_crlf v.
+  forall n v, In (n, v) (nv_get_all f) -> fname n /\ no_crlf v.
 
 (* what the theorems assume about the user-supplied part of a request (the fields
    the request factory puts on EVERY request: --user-agent, --header, --referer,
@@ -91,7 +105,7 @@ Definition request_head (b : list N) (method target : str) (fl : list (str * str
         ++ List.concat (map (fun p => wire_line p ++ crlf) fl) ++ crlf
   /\ (method = s_GET \/ method = s_POST)
   /\ clean target
-  /\ Forall (fun p => token (fst p) /\ no_crlf (snd p) /\ no_crlf (wire_line p)) fl.
+  /\ Forall (fun p => fname (fst p) /\ no_crlf (snd p) /\ no_crlf (wire_line p)) fl.
 
 (* values of the fields with a given name in a field list *)
 Definition fl_values (n : str) (fl : list (str * str)) : list str :=
@@ -105,3 +119,76 @@ Definition with_userinfo (u : urlc) (a b a' b' : str) : urlc :=
   {| u_scheme := u_scheme u; u_defport := u_defport u; u_hostname := u_hostname u; u_ipv6 := u_ipv6 u;
      u_port := u_port u; u_path := u_path u; u_query := u_query u;
      u_user := a; u_pass := b; u_user_enc := a'; u_pass_enc := b' |}.
+
+(* the hypotheses shared by the four C16 theorems *)
+Definition c16_pre (c : cfg) (jar : nat -> urlc -> jans) (u : urlc) (parent : option urlc) (rs : list resp) : Prop :=
+  base_ok (c_base c) /\ jar_ok jar /\ url_clean u /\ parent_ok parent /\ chain_urls url_clean rs.
+
+(* path[?query] *)
+Definition origin_form (u : urlc) : str :=
+  u_path u ++ (if nonempty (u_query u) then [63] ++ u_query u else []).
+
+(* values of the fields a reader takes for field [n] (any spelling of the name) *)
+Definition fl_values_ci (n : str) (fl : list (str * str)) : list str :=
+  map snd (filter (fun p => ci_eq (fst p) n) fl).
+
+(* ---------------------------------------------------------------- *)
+(* An independent reader of a message head (RFC 7230 3): lines end at *)
+(* CRLF, the head ends at the first empty line, the request line is   *)
+(* split at SP, a field line at its first colon, optional whitespace  *)
+(* before the value is dropped.  Nothing here refers to the model.    *)
+(* ---------------------------------------------------------------- *)
+Fixpoint split_crlf (b : list N) : list (list N) :=
+  match b with
+  | [] => [[]]
+  | x :: r =>
+      match r with
+      | y :: r' =>
+          if (x =? 13) && (y =? 10) then [] :: split_crlf r'
+          else match split_crlf r with l :: ls => (x :: l) :: ls | [] => [[x]] end
+      | [] => [[x]]
+      end
+  end.
+
+Fixpoint split_sp (l : list N) : list (list N) :=
+  match l with
+  | [] => [[]]
+  | x :: r => if x =? 32 then [] :: split_sp r
+              else match split_sp r with w :: ws => (x :: w) :: ws | [] => [[x]] end
+  end.
+
+Fixpoint lstrip (l : list N) : list N :=
+  match l with
+  | x :: r => if (x =? 32) || (x =? 9) then lstrip r else l
+  | [] => []
+  end.
+
+Fixpoint split_field (l : list N) : option (list N * list N) :=
+  match l with
+  | [] => None
+  | x :: r => if x =? 58 then Some ([], lstrip r)
+              else match split_field r with Some (n, v) => Some (x :: n, v) | None => None end
+  end.
+
+(* the lines up to the first empty one, and what follows it *)
+Fixpoint take_fields (ls : list (list N)) : list (list N) * list (list N) :=
+  match ls with
+  | [] => ([], [])
+  | l :: r => if nonempty l then let (a, b) := take_fields r in (l :: a, b) else ([], r)
+  end.
+
+(* Some (words of the request line, fields) when the bytes are exactly one head: request line, field
+   lines, blank line and nothing after it *)
+Definition read_head (b : list N) : option (list (list N) * list (option (list N * list N))) :=
+  match split_crlf b with
+  | rl :: rest =>
+      match take_fields rest with
+      | (fls, [[]]) => Some (split_sp rl, map split_field fls)
+      | _ => None
+      end
+  | [] => None
+  end.
+
+(* what a reader must get from a head with method m, target t and fields fl *)
+Definition reading (m t : str) (fl : list (str * str)) : list (list N) * list (option (list N * list N)) :=
+  ([m; t; s_version], map (fun p => Some (fst p, lstrip (enc_replace (snd p)))) fl).
